@@ -40,7 +40,16 @@ Definition monitor (c : case) : list N :=
        let canon_decides := ic && match v_tlsa_canon v with QFail => true | QOk true (_ :: _) => true | _ => false end in
        if negb canon_decides && negb (lookup_eqb (c_res c) (LRecs (x :: l))) then [22] else []
    | _, _ => []
-   end).
+   end) ++
+  (* a failing TLSA query at the canonical name of an MX that is an authenticated alias defers:
+     the records that decide may be exactly the ones that could not be fetched *)
+  (let consults_canon :=
+     match v_addr v with
+     | QOk true (Some true) => true
+     | QOk false (Some true) => match v_cname v with QOk true _ => true | _ => false end
+     | _ => false
+     end in
+   if consults_canon && is_fail (v_tlsa_canon v) && negb (lookup_eqb (c_res c) LErr) then [23] else []).
 Definition monitor_failures (cs : list case) : list (N * list N) :=
   let fix go (i : N) (l : list case) :=
     match l with
